@@ -19,6 +19,7 @@ import (
 	"time"
 
 	"github.com/attestantio/go-eth2-client/api"
+	apiv1 "github.com/attestantio/go-eth2-client/api/v1"
 	"github.com/attestantio/go-eth2-client/spec/phase0"
 	"github.com/attestantio/vouch/services/synccommitteeaggregator"
 	"github.com/attestantio/vouch/services/synccommitteemessenger"
@@ -71,7 +72,13 @@ func (s *Service) scheduleSyncCommitteeMessages(ctx context.Context,
 		s.log.Error().Err(err).Msg("Failed to fetch sync committee message duties")
 		return
 	}
-	duties := dutiesResponse.Data
+	// The list comes from the beacon node as it is; ignore entries that are not duties.
+	duties := make([]*apiv1.SyncCommitteeDuty, 0, len(dutiesResponse.Data))
+	for _, duty := range dutiesResponse.Data {
+		if duty != nil {
+			duties = append(duties, duty)
+		}
+	}
 	s.log.Trace().Dur("elapsed", time.Since(started)).Int("duties", len(duties)).Msg("Fetched sync committee message duties")
 	if len(duties) == 0 {
 		// No duties; nothing to do.
